@@ -13,8 +13,8 @@ use sv_parser_parser::verif_hooks as hooks;
 
 pub fn cases(tier: Tier) -> u64 {
     match tier {
-        Tier::Quick => 4000,
-        Tier::Thorough => 100000,
+        Tier::Quick => 20000,
+        Tier::Thorough => 400000,
         Tier::Tiny => 32,
     }
 }
@@ -137,7 +137,8 @@ pub fn run_case(env: &Env, ctx: &mut Ctx, idx: u64) {
                         (Ok(Ok((t2, _))), Ok(Ok(s2))) => exact_skeleton(&t2) == s2,
                         _ => false,
                     };
-                    ctx.violation("prefix-not-complete-descriptions", if agree_unbounded { "K3" } else { "" }, &m, witness(&m));
+                    let (sig, note) = crate::memo_cfg::attribute(env, if agree_unbounded { "K3" } else { "" });
+                    ctx.violation("prefix-not-complete-descriptions", &sig, &format!("{}{}", m, note), witness(&m));
                 }
             }
         }
@@ -161,7 +162,8 @@ pub fn run_case(env: &Env, ctx: &mut Ctx, idx: u64) {
                     (Ok(Ok((a, _))), Ok(Ok((b, _)))) => exact_skeleton(&a) == exact_skeleton(&b),
                     _ => false,
                 };
-                ctx.violation("strict-vs-incomplete", if agree { "K3" } else { "" }, &m, witness(&m));
+                let (sig, note) = crate::memo_cfg::attribute(env, if agree { "K3" } else { "" });
+                ctx.violation("strict-vs-incomplete", &sig, &format!("{}{}", m, note), witness(&m));
             }
             // junk suffix leaves the tree unchanged, white space aside
             let j = *rng.pick(JUNK);
@@ -205,7 +207,8 @@ pub fn run_case(env: &Env, ctx: &mut Ctx, idx: u64) {
                             (Ok(Ok((x, xt))), Ok(Ok((y, yt)))) => layout_free(&x, &xt, false) == layout_free(&y, &yt, false),
                             _ => false,
                         };
-                        ctx.violation("junk-suffix", if agree { "K3" } else { "" }, &m, witness(&m));
+                        let (sig, note) = crate::memo_cfg::attribute(env, if agree { "K3" } else { "" });
+                        ctx.violation("junk-suffix", &sig, &format!("{}{}", m, note), witness(&m));
                     }
                 }
             }
